@@ -95,6 +95,19 @@ def check(rep, ctx):
         rep.check(R_E, a[1] in (5, 10) and len(a[2]) == 1, construct=a[0], stmt=f"varint reader, at most {a[1]} bytes, then {a[2]}",
                   message=f"varint reader reads up to {a[1]} bytes and then {a[2]}", file=ctx.sm.require(a[0].split(':')[0]).rel, line=a[3],
                   instance=f"{a[0]}|{a[1]}")
+    if ctx.tier == "thorough":
+        from ..faults import explore_faults
+        R_F = rep.rule("C06-f-fault-paths", "thorough: on every path on which some checked read of some codec root raises "
+                       "BufferUnderflow, that exception leaves the root unchanged (path-sensitive exception flow with one "
+                       "injected short read per stream operation)", floor=2000)
+        out, st = explore_faults(ctx, "underflow", "r")
+        for codec, problems, limit in out:
+            if limit:
+                raise AnalysisError(f"{getattr(codec, 'ref', codec)}: {problems[0]}")
+            rep.check(R_F, False, construct=getattr(codec, "ref", str(codec)), stmt="; ".join(problems)[:200], message="; ".join(problems),
+                      file=ctx.sm.require(codec.module).rel if ctx.sm.get(codec.module) else "", line=codec.node.lineno)
+        rep.count(R_F, st["fault_paths"], instance="fault-paths")
+        rep.extra["fault_injection"] = st
     rep.sample({"rule": "C06-b-checked", "atom": xr[0] if xr else None})
     rep.extra.update(read_sites=n_sites, functions_on_decode_and_encode_paths=len(eng["functions"]),
                      depends_on="C01-b (exact consumption) for the existence of a crossing read")
